@@ -30,6 +30,13 @@ class InvalidModes(PiquassoException):
     """Raised when invalid set of modes are encountered."""
 
 
+class InactiveModes(InvalidModes, ValueError):
+    """Raised when an instruction addresses modes which have already been measured.
+
+    It also derives from `ValueError` for backward compatibility.
+    """
+
+
 class InvalidProgram(PiquassoException):
     """Raised when an invalid program is being created or used."""
 
